@@ -404,9 +404,14 @@ impl<'a, R: Rng> Gen<'a, R> {
         if self.below(40) == 0 {
             return 8 + self.below(26);
         }
+        if self.below(600) == 0 {
+            return *self.pick(&[63usize, 64, 65, 100, 127, 128, 129, 255, 256, 257]);
+        }
         if self.below(25) == 0 {
             // a length that occurs as a number in deserr's sources (size thresholds), or one off
-            let small: Vec<u64> = dict().ints.iter().copied().filter(|v| *v <= 48).collect();
+            // (lengths up to 48 often, up to 300 now and then: 64, 128, 255, 256 are typical thresholds)
+            let cap = if self.below(6) == 0 { 300 } else { 48 };
+            let small: Vec<u64> = dict().ints.iter().copied().filter(|v| *v <= cap).collect();
             if !small.is_empty() {
                 let v = *self.pick(&small) as usize;
                 return (v + [0usize, 0, 1][self.below(3)]).saturating_sub(self.below(2));
